@@ -594,6 +594,28 @@ func c18CheckClosureBuilder(k *eng.Check, fn *ssa.Function) {
 	// (4b) closures[j] comes from parents[j]
 	c18CheckClosureLoads(k, fn, cs, parentsP)
 
+	// (4a') no loop over the parents is left early: a loop is exited through its own condition or towards an
+	// error return; an early exit that can still reach a success return skips the remaining parents
+	succ := eng.SuccessExits(fn)
+	loops := eng.Loops(fn)
+	if len(loops) < 3 {
+		k.Unknown("closure-loops-complete", name, "the loops over the parents / their closures", fmt.Sprintf("%d loops found (confirmed floor 3)", len(loops)))
+	}
+	for li, l := range loops {
+		var early []eng.Point
+		for _, e := range l.Exits {
+			if e.From != l.Header {
+				early = append(early, eng.Point{B: e.To(), I: 0})
+			}
+		}
+		what := fmt.Sprintf("loop %d: an exit other than the loop condition leads only to error returns", li)
+		if len(early) == 0 {
+			k.Pass("closure-loops-complete", name+"#"+what, what, 1)
+			continue
+		}
+		k.OnlyAfter("closure-loops-complete", fn, what, succ, 1, eng.NewSet(), early...)
+	}
+
 	// (4c) every other closure is merged in
 	diffs := eng.Calls(fn, c18mDiff, false)
 	if len(diffs) < 1 {
